@@ -461,3 +461,48 @@ func stdCfg(tier string, invariants ...string) string {
 }
 
 var _ object.Object
+
+// run a TLC module in simulation mode and hand every exported row to the handler
+func runRowsSim(c *Check, module, cfg string, num, depth int, handler func(row *Row)) {
+	rows := make(chan *Row, 4096)
+	var wg sync.WaitGroup
+	for w := 0; w < runtime.NumCPU(); w++ {
+		wg.Add(1)
+		go func() {
+			defer wg.Done()
+			for row := range rows {
+				func() {
+					defer func() {
+						if r := recover(); r != nil {
+							c.fail(fmt.Sprintf("harness panic on row %.300s: %v", row.Raw, r))
+						}
+					}()
+					handler(row)
+				}()
+			}
+		}()
+	}
+	res, err := runTLC(tlcOpts{Module: module, Cfg: cfg, Workers: 1, Timeout: 20 * time.Minute, Simulate: fmt.Sprintf("num=%d", num), Depth: depth, Seed: c.Seed,
+		OnRow: func(raw json.RawMessage) {
+			var row Row
+			if json.Unmarshal(raw, &row) != nil {
+				return
+			}
+			row.Raw = raw
+			c.mu.Lock()
+			c.behaviours++
+			c.mu.Unlock()
+			rows <- &row
+		}})
+	close(rows)
+	wg.Wait()
+	if res != nil {
+		c.tlcCmds = append(c.tlcCmds, res.Cmd)
+	}
+	if err != nil {
+		c.fail(err.Error())
+	} else if res.Violation != "" {
+		c.fail("specification-level check failed in " + module + " (simulation): " + res.Violation)
+	}
+	c.exhaustive = false
+}
